@@ -272,27 +272,34 @@ theorem setD_push (c : Ctx) (d : KV) (k : String) (v : Expr) :
     have := create_ok _ _ _ _ h
     subst this
     simp [Ctx.push, putTop]
-  unfold Ctx.setD
-  split
-  · rename_i c0 h
+  have hmono : ∀ k', d.has k' = true → (d.put k v).has k' = true := by
+    intro k' hk'; simp [KV.has_put, hk']
+  cases hset0 : (c.push d).set k v with
+  | error e =>
+    refine ⟨d, c, ?_, Or.inl rfl, fun _ h => h⟩
+    simp [Ctx.setD, hset0]
+  | ok c0 =>
+    have e0 : (c.push d).setD k v = c0 := by simp [Ctx.setD, hset0]
+    rw [e0]
+    have h := hset0
     unfold Ctx.set at h
     split at h
     · -- reserved: always the frame
-      exact ⟨d.put k v, c, hcreate _ h, Or.inl rfl, fun k' hk' => by simp [KV.has_put, hk']⟩
+      exact ⟨d.put k v, c, hcreate _ h, Or.inl rfl, hmono⟩
     · rename_i hres
       have hres' : reserved k = false := by simpa using hres
       simp only [Ctx.push, setExisting] at h
       by_cases hk : d.has k = true
       · simp only [hk, if_true] at h
         simp at h
-        refine ⟨d.put k v, c, ?_, Or.inl rfl, fun k' hk' => by simp [KV.has_put, hk']⟩
+        refine ⟨d.put k v, c, ?_, Or.inl rfl, hmono⟩
         rw [← h]; simp [Ctx.push]
       · have hk' : d.has k = false := by simpa using hk
         simp only [hk', Bool.false_eq_true, if_false] at h
         cases hr : setExisting c.scopes k v with
         | none =>
           simp only [hr] at h
-          exact ⟨d.put k v, c, hcreate _ h, Or.inl rfl, fun k' hk' => by simp [KV.has_put, hk']⟩
+          exact ⟨d.put k v, c, hcreate _ h, Or.inl rfl, hmono⟩
         | some x =>
           cases x with
           | error e => simp [hr] at h
@@ -304,7 +311,6 @@ theorem setD_push (c : Ctx) (d : KV) (k : String) (v : Expr) :
             refine ⟨d, { c with scopes := r' }, ?_, Or.inr ⟨hset.symm, hk', hres', ?_⟩, fun _ h => h⟩
             · rw [← h]; simp [Ctx.push]
             · rw [hset]; exact setExisting_sig _ _ _ _ hr
-  · exact ⟨d, c, rfl, Or.inl rfl, fun _ h => h⟩
 
 /-- writes performed while a frame `d` is on top: the frame absorbs every write to one of its own
     names, to a reserved name and to an unknown name; what reaches the context below is a list of
@@ -429,6 +435,7 @@ include hev
 theorem pres_callE (e : Expr) : Pres (callE ev e) := by
   unfold callE; split <;> exact hev _
 
+omit hev in
 theorem pres_runPrim (name : String) : Pres (runPrim name) := by
   unfold runPrim
   refine pres_bind _ _ pres_getCtx (fun c => ?_)
@@ -485,16 +492,20 @@ theorem pres_evalOverLoop (f : Expr) : ∀ (xs : List Val) (acc : Expr), Pres (e
     simp only [evalOverLoop]
     exact pres_bind _ _ (hev _) (fun a => ih a)
 
+theorem pres_runBody (body : Expr) : Pres (runBody ev body) := by
+  unfold runBody
+  split
+  · exact pres_runPrim _
+  · exact pres_callE ev hev _
+
 theorem pres_applyFn (f : Expr) (merged : Option (List Expr)) : Pres (applyFn ev f merged) := by
   unfold applyFn
   refine pres_bind _ _ ?_ (fun frame0 => ?_)
-  · split
+  · unfold bindFrame
+    split
     · exact pres_pure _
     · exact pres_bindArgs ev hev _ _
-  · apply pres_framed
-    split
-    · exact pres_runPrim _
-    · exact pres_callE ev hev _
+  · exact pres_framed _ _ (pres_runBody ev hev _)
 
 theorem pres_evalFn (self a : Expr) (args : Option (List Expr)) (ar : Nat) :
     Pres (evalFn ev self a args ar) := by
@@ -538,5 +549,950 @@ theorem pres_eval : ∀ (n : Nat) (e : Expr), Pres (eval n e) := by
   induction n with
   | zero => intro e; simp only [eval]; exact pres_raise _
   | succ n ih => intro e; simp only [eval]; exact pres_step _ ih e
+
+/-! ## unfolding lemmas -/
+
+theorem bind_run {α β : Type} (m : M α) (f : α → M β) (s : St) :
+    (m >>= f) s = match m s with
+      | (.ok a, s') => f a s'
+      | (.error e, s') => (.error e, s') := rfl
+
+theorem pure_run {α : Type} (a : α) (s : St) : (pure a : M α) s = (.ok a, s) := rfl
+
+theorem evalFn_run (ev : Expr → M Expr) (self a : Expr) (args : Option (List Expr)) (ar : Nat) (s : St) :
+    evalFn ev self a args ar s =
+      match prepare s.ctx a args ar with
+      | .error e => (.error e, s)
+      | .ok none => (.ok self, s)
+      | .ok (some (f, merged)) => applyFn ev f merged s := by
+  unfold evalFn
+  simp only [bind_run, getCtx]
+  cases h : prepare s.ctx a args ar with
+  | error e => simp [liftE, raise]
+  | ok p =>
+    cases p with
+    | none => simp [liftE, pure_run]
+    | some fm => obtain ⟨f, merged⟩ := fm; simp [liftE, pure_run]
+
+theorem eval_call_run (n : Nat) (a : Expr) (as : List Expr) (ar : Nat) (s : St) :
+    eval (n + 1) (.call a as ar) s =
+      match prepare s.ctx a (some as) ar with
+      | .error e => (.error e, s)
+      | .ok none => (.ok (.call a as ar), s)
+      | .ok (some (f, merged)) => applyFn (eval n) f merged s := by
+  show step (eval n) _ s = _
+  simp only [step, evalFn_run]
+
+theorem eval_lit (n : Nat) (v : Val) (s : St) : (eval n (.lit v) s).2 = s := by
+  cases n with
+  | zero => rfl
+  | succ n => rfl
+
+theorem eval_lit_ok (n : Nat) (v : Val) (s : St) : eval (n + 1) (.lit v) s = (.ok (.lit v), s) := rfl
+
+theorem bindArgs_lits (n : Nat) : ∀ (ps : List String) (vals : List Val) (s : St),
+    (bindArgs (eval n) ps (vals.map .lit) s).2 = s := by
+  intro ps
+  induction ps with
+  | nil => intro vals s; simp [bindArgs, pure_run]
+  | cons p ps ih =>
+    intro vals s
+    cases vals with
+    | nil => simp [bindArgs, pure_run]
+    | cons v vals =>
+      simp only [List.map_cons, bindArgs, bind_run, callE]
+      cases n with
+      | zero => rfl
+      | succ n =>
+        rw [eval_lit_ok]
+        simp only
+        have := ih vals s
+        cases h : bindArgs (eval (n + 1)) ps (List.map Expr.lit vals) s with
+        | mk r s' =>
+          rw [h] at this
+          cases r <;> simp_all [pure_run]
+
+theorem bindArgs_keys (ev : Expr → M Expr) : ∀ (ps : List String) (as : List Expr) (s : St) (fr : KV),
+    (bindArgs ev ps as s).1 = .ok fr → fr.keys = (ps.zip as).map Prod.fst := by
+  intro ps
+  induction ps with
+  | nil => intro as s fr h; simp [bindArgs, pure_run] at h; subst h; simp [KV.keys]
+  | cons p ps ih =>
+    intro as s fr h
+    cases as with
+    | nil => simp [bindArgs, pure_run] at h; subst h; simp [KV.keys]
+    | cons a as =>
+      simp only [bindArgs, bind_run] at h
+      cases h1 : callE ev a s with
+      | mk r1 s1 =>
+        rw [h1] at h
+        cases r1 with
+        | error e => simp at h
+        | ok v =>
+          simp only at h
+          cases h2 : bindArgs ev ps as s1 with
+          | mk r2 s2 =>
+            rw [h2] at h
+            cases r2 with
+            | error e => simp at h
+            | ok fr' =>
+              simp [pure_run] at h
+              subst h
+              have := ih as s1 fr' (by rw [h2])
+              simp [KV.keys] at this ⊢
+              exact this
+
+theorem KV.mem_keys_iff (d : KV) (k : String) : k ∈ d.keys ↔ d.has k = true := by
+  induction d with
+  | nil => simp [KV.keys, KV.has, KV.get]
+  | cons p r ih =>
+    obtain ⟨k0, v0⟩ := p
+    by_cases hk : k = k0
+    · subst hk; simp [KV.keys, KV.has, KV.get]
+    · simp only [KV.keys, List.map_cons, List.mem_cons, hk, false_or, KV.has, KV.get, if_false] at ih ⊢
+      exact ih
+
+theorem addLocals_has (ns : List String) : ∀ (d : KV) (k : String),
+    (d.has k = true ∨ k ∈ ns) → (addLocals d ns).has k = true := by
+  induction ns with
+  | nil => intro d k h; simpa [addLocals] using h
+  | cons n ns ih =>
+    intro d k h
+    simp only [addLocals]
+    apply ih
+    rcases h with h | h
+    · left; split
+      · exact h
+      · simp [KV.has_put, h]
+    · rcases List.mem_cons.mp h with rfl | h
+      · left; split
+        · assumption
+        · simp [KV.has_put]
+      · right; exact h
+
+/-- the names a function declares local (`[a b]` in front of its body) -/
+def declared (f : Expr) : List String :=
+  match splitLocals f with
+  | some (ns, _) => ns
+  | none => []
+
+theorem frameOf_has (f : Expr) (frame0 : KV) (k : String)
+    (h : frame0.has k = true ∨ k ∈ declared f ∨ k = ".f") : (frameOf f frame0).1.has k = true := by
+  unfold frameOf declared at *
+  split
+  · rename_i ns rest hs
+    simp only [hs] at h
+    simp only [KV.has_put]
+    rcases h with h | h | h
+    · simp [addLocals_has ns frame0 k (Or.inl h)]
+    · simp [addLocals_has ns frame0 k (Or.inr h)]
+    · simp [h]
+  · rename_i hs
+    simp only [hs] at h
+    simp only [KV.has_put]
+    rcases h with h | h | h
+    · simp [h]
+    · simp at h
+    · simp [h]
+
+/-! ## PROPERTY: frame discipline -/
+
+/-- PROPERTY.  For every program, every fuel and every outcome — a value, or an error raised at any
+    sub-expression at any call depth: the context has the depth it had before, every scope below
+    the top one has exactly the names it had (their values change only by assignment), the top
+    scope keeps its names, the post-state is the pre-state with a list of assignments applied, and
+    the event log has only grown. -/
+theorem frame_discipline (n : Nat) (e : Expr) (s : St) (hw : WF s.ctx) :
+    (eval n e s).2.ctx.depth = s.ctx.depth ∧
+    (eval n e s).2.ctx.minCount = s.ctx.minCount ∧
+    (eval n e s).2.ctx.scopes.tail.map sig = s.ctx.scopes.tail.map sig ∧
+    (∀ k, topHas s.ctx.scopes k = true → topHas (eval n e s).2.ctx.scopes k = true) ∧
+    (∃ ws, (eval n e s).2.ctx = applyWrites s.ctx ws) ∧
+    (∃ l, (eval n e s).2.log = s.log ++ l) := by
+  have h := pres_eval n e s hw
+  have hs := h.same
+  exact ⟨hs.len, hs.min, hs.below, hs.top, h.1, h.2⟩
+
+/-- PROPERTY.  Whatever the outcome of evaluating `e` (in particular when it failed part-way), every
+    further program behaves exactly as it does from the pre-state with the assignments of `e`
+    applied: nothing else of the failed evaluation is left behind. -/
+theorem eval_after_failure (n : Nat) (e : Expr) (s : St) (hw : WF s.ctx) :
+    ∃ ws l, ∀ (m : Nat) (p : Expr),
+      eval m p (eval n e s).2 = eval m p { ctx := applyWrites s.ctx ws, log := s.log ++ l } := by
+  obtain ⟨⟨ws, hc⟩, ⟨l, hl⟩⟩ := pres_eval n e s hw
+  refine ⟨ws, l, fun m p => ?_⟩
+  have : (eval n e s).2 = { ctx := applyWrites s.ctx ws, log := s.log ++ l } := by
+    cases h : (eval n e s).2 with
+    | mk c lg => rw [h] at hc hl; simp only at hc hl; rw [hc, hl]
+  rw [this]
+
+/-- the second half of a call, with the arguments already values: seen from the caller, every scope —
+    the caller's own top scope included — keeps exactly its names, and no name of the frame
+    (parameter, declared local, `.f`) is touched below the frame -/
+theorem applyFn_caller (n : Nat) (f : Expr) (vals : List Val) (s : St) (hw : WF s.ctx) :
+    (applyFn (eval n) f (some (vals.map .lit)) s).2.ctx.scopes.map sig = s.ctx.scopes.map sig ∧
+    (applyFn (eval n) f (some (vals.map .lit)) s).2.ctx.depth = s.ctx.depth ∧
+    ∀ k, (k ∈ ["x", "y", "z"].take vals.length ∨ k ∈ declared f ∨ k = ".f") →
+      (applyFn (eval n) f (some (vals.map .lit)) s).2.ctx.get k = s.ctx.get k := by
+  unfold applyFn
+  simp only [bind_run, bindFrame]
+  have hst := bindArgs_lits n ["x", "y", "z"] vals s
+  cases hb : bindArgs (eval n) ["x", "y", "z"] (vals.map .lit) s with
+  | mk r s1 =>
+    rw [hb] at hst
+    simp only at hst
+    subst hst
+    cases r with
+    | error e => simp
+    | ok frame0 =>
+      simp only
+      have hkeys := bindArgs_keys (eval n) _ _ _ frame0 (by rw [hb])
+      obtain ⟨ws', hctx, hws, hsig⟩ := framed_caller (frameOf f frame0).1
+        (runBody (eval n) (frameOf f frame0).2) (pres_runBody _ (pres_eval n) _) s1 hw
+      refine ⟨hsig, ?_, ?_⟩
+      · have := congrArg List.length hsig
+        simpa [Ctx.depth] using this
+      · intro k hk
+        rw [hctx]
+        apply applyWrites_get
+        intro w hw' heq
+        have hhas : (frameOf f frame0).1.has k = true := by
+          apply frameOf_has
+          rcases hk with hk | hk | hk
+          · left
+            rw [← KV.mem_keys_iff, hkeys]
+            have : ∀ (vs : List Val), k ∈ ["x", "y", "z"].take vs.length →
+                k ∈ (List.zip ["x", "y", "z"] (vs.map Expr.lit)).map Prod.fst := by
+              intro vs h
+              rcases vs with _ | ⟨a, _ | ⟨b, _ | ⟨c, rest⟩⟩⟩ <;> simp_all
+            exact this vals hk
+          · right; left; exact hk
+          · right; right; exact hk
+        rw [← heq] at hhas
+        rw [(hws w hw').1] at hhas
+        exact absurd hhas (by simp)
+
+/-- PROPERTY (frame discipline of a call).  A call whose arguments are values — whatever happens
+    inside it, at any depth, value or error — leaves every scope of the caller with exactly the names
+    it had and the context at its depth. (`hm`: the arguments stored in projections it goes through
+    are values too.) -/
+theorem call_frame_discipline (n : Nat) (a : Expr) (vals : List Val) (ar : Nat) (s : St) (hw : WF s.ctx)
+    (hm : ∀ f merged, prepare s.ctx a (some (vals.map .lit)) ar = .ok (some (f, merged)) →
+      ∃ vs : List Val, merged = some (vs.map .lit)) :
+    (eval (n + 1) (.call a (vals.map .lit) ar) s).2.ctx.scopes.map sig = s.ctx.scopes.map sig ∧
+    (eval (n + 1) (.call a (vals.map .lit) ar) s).2.ctx.depth = s.ctx.depth := by
+  rw [eval_call_run]
+  cases hp : prepare s.ctx a (some (vals.map .lit)) ar with
+  | error e => simp
+  | ok p =>
+    cases p with
+    | none => simp
+    | some fm =>
+      obtain ⟨f, merged⟩ := fm
+      obtain ⟨vs, rfl⟩ := hm f merged hp
+      simp only
+      exact ⟨(applyFn_caller n f vs s hw).1, (applyFn_caller n f vs s hw).2.1⟩
+
+/-- PROPERTY.  Parameters, declared locals and `.f` exist only during the call: afterwards — also
+    when the call failed part-way — each of these names has in the caller's context the value (or
+    the absence of a value) it had before. -/
+theorem locals_are_local (n : Nat) (a : Expr) (vals : List Val) (ar : Nat) (s : St) (hw : WF s.ctx)
+    (f : Expr) (vs : List Val)
+    (hp : prepare s.ctx a (some (vals.map .lit)) ar = .ok (some (f, some (vs.map .lit))))
+    (k : String) (hk : k ∈ ["x", "y", "z"].take vs.length ∨ k ∈ declared f ∨ k = ".f") :
+    (eval (n + 1) (.call a (vals.map .lit) ar) s).2.ctx.get k = s.ctx.get k := by
+  rw [eval_call_run, hp]
+  exact (applyFn_caller n f vs s hw).2.2 k hk
+
+/-! ## projections -/
+
+/-- an absolute description of one filling step: position ↦ argument (absent = stays open) -/
+abbrev Fill := List (Nat × Expr)
+
+def fillGet : Fill → Nat → Expr
+  | [], _ => .hole
+  | (j, e) :: r, i => if i = j then e else fillGet r i
+
+/-- the argument list one writes for the fill `st` when the current argument vector is `cur`:
+    one entry per open position, in order — `g(;2)` -/
+def relLayerFrom (i : Nat) : List Expr → Fill → List Expr
+  | [], _ => []
+  | e :: r, st => if isHole e then fillGet st i :: relLayerFrom (i + 1) r st else relLayerFrom (i + 1) r st
+
+/-- the fill applied by position -/
+def applyFillFrom (i : Nat) : List Expr → Fill → List Expr
+  | [], _ => []
+  | e :: r, st => (if isHole e then fillGet st i else e) :: applyFillFrom (i + 1) r st
+
+theorem isHole_eq {e : Expr} (h : isHole e = true) : e = .hole := by
+  cases e <;> simp_all [isHole]
+
+theorem fillLayer_cons_cons (s : Expr) (ss : List Expr) (a : Expr) (as : List Expr) :
+    fillLayer (s :: ss) (a :: as) =
+      if isHole s then a :: fillLayer ss as else s :: fillLayer ss (a :: as) := by
+  cases s <;> simp [fillLayer, isHole]
+
+theorem fillLayer_nil_right (ss : List Expr) : fillLayer ss [] = ss := by
+  cases ss <;> simp [fillLayer]
+
+theorem applyFill_of_rel_nil : ∀ (r : List Expr) (j : Nat) (st : Fill),
+    relLayerFrom j r st = [] → applyFillFrom j r st = r := by
+  intro r
+  induction r with
+  | nil => intro j st _; rfl
+  | cons e r ih =>
+    intro j st h
+    simp only [relLayerFrom] at h
+    by_cases he : isHole e = true
+    · simp [he] at h
+    · simp only [he] at h
+      simp only [applyFillFrom, he]
+      simp at h
+      simp [ih (j + 1) st h]
+
+/-- what `merge_projections` does with one layer is the positional fill -/
+theorem fillLayer_rel : ∀ (cur : List Expr) (i : Nat) (st : Fill),
+    fillLayer cur (relLayerFrom i cur st) = applyFillFrom i cur st := by
+  intro cur
+  induction cur with
+  | nil => intro i st; simp [relLayerFrom, applyFillFrom, fillLayer]
+  | cons e r ih =>
+    intro i st
+    by_cases he : isHole e = true
+    · simp only [relLayerFrom, he, if_true, applyFillFrom]
+      rw [fillLayer_cons_cons]
+      simp [he, ih]
+    · have he' : isHole e = false := by simpa using he
+      simp only [relLayerFrom, he', applyFillFrom, Bool.false_eq_true, if_false]
+      cases hl : relLayerFrom (i + 1) r st with
+      | nil =>
+        simp [fillLayer_nil_right, applyFill_of_rel_nil r (i + 1) st hl]
+      | cons a as =>
+        rw [fillLayer_cons_cons]
+        simp only [he', Bool.false_eq_true, if_false]
+        rw [← hl, ih]
+
+theorem applyFill_length : ∀ (cur : List Expr) (i : Nat) (st : Fill),
+    (applyFillFrom i cur st).length = cur.length := by
+  intro cur
+  induction cur with
+  | nil => intro i st; rfl
+  | cons e r ih => intro i st; simp [applyFillFrom, ih]
+
+theorem applyFill_get : ∀ (cur : List Expr) (i j : Nat) (st : Fill),
+    (applyFillFrom i cur st)[j]? = cur[j]?.map (fun e => if isHole e then fillGet st (i + j) else e) := by
+  intro cur
+  induction cur with
+  | nil => intro i j st; simp [applyFillFrom]
+  | cons e r ih =>
+    intro i j st
+    cases j with
+    | zero => simp [applyFillFrom]
+    | succ j =>
+      simp only [applyFillFrom, List.getElem?_cons_succ, ih]
+      have : i + 1 + j = i + (j + 1) := by omega
+      rw [this]
+
+/-- PROPERTY (merge is positional).  The layer written for a fill — one entry per open hole, in
+    order, the argument for that position or again a hole — puts into every position exactly the
+    argument the fill names for it and leaves the positions filled earlier alone. -/
+theorem merge_is_positional (cur : List Expr) (st : Fill) (j : Nat) :
+    (fillLayer cur (relLayerFrom 0 cur st))[j]? =
+      cur[j]?.map (fun e => if isHole e then fillGet st j else e) := by
+  rw [fillLayer_rel, applyFill_get]; simp
+
+def holes (n : Nat) : List Expr := List.replicate n .hole
+
+theorem rel_holes : ∀ (n i : Nat) (st : Fill), relLayerFrom i (holes n) st = applyFillFrom i (holes n) st := by
+  intro n
+  induction n with
+  | zero => intro i st; rfl
+  | succ n ih =>
+    intro i st
+    simp only [holes, List.replicate_succ, relLayerFrom, applyFillFrom, isHole, if_true]
+    rw [← holes, ih]
+
+/-- `_resolve_fn` leaves the expression alone (operator nodes, conditionals, programs, data, and
+    symbols bound to data) -/
+def Stable (c : Ctx) (b : Expr) : Prop := ∀ L ar, resolve1 c b L ar = .ok (b, L, ar)
+
+theorem stable_op2 (c : Ctx) (o : String) (a b : Expr) : Stable c (.op2 o a b) := by
+  intro L ar; simp only [resolve1]; split <;> rfl
+theorem stable_op1 (c : Ctx) (o : String) (a : Expr) : Stable c (.op1 o a) := by
+  intro L ar; simp only [resolve1]; split <;> rfl
+theorem stable_cond (c : Ctx) (t a b : Expr) : Stable c (.cond t a b) := by
+  intro L ar; simp only [resolve1]; split <;> rfl
+theorem stable_prog (c : Ctx) (es : List Expr) : Stable c (.prog es) := by
+  intro L ar; simp only [resolve1]; split <;> rfl
+theorem stable_lit (c : Ctx) (v : Val) : Stable c (.lit v) := by
+  intro L ar; simp only [resolve1]; split <;> rfl
+
+theorem resolve1_sym_fn (c : Ctx) (s : String) (b : Expr) (far : Nat) (L : Layers) (ar : Nat)
+    (hs : reserved s = false) (hg : c.get s = some (.fn b far)) (har : 0 < ar) :
+    resolve1 c (.sym s) L ar = .ok (b, L, far) := by
+  simp [resolve1, hg, hs, isKGFn, har]
+
+theorem resolve1_sym_proj (c : Ctx) (s : String) (a : Expr) (as : List Expr) (k : Nat) (L : Layers)
+    (ar : Nat) (hs : reserved s = false) (hg : c.get s = some (.proj a as k)) (hh : hasHole as = true)
+    (har : 0 < ar) : resolve1 c (.sym s) L ar = .ok (a, L ++ [some as], k) := by
+  simp [resolve1, hg, hs, isKGFn, har, hh]
+
+theorem resolve1_fn (c : Ctx) (b : Expr) (far : Nat) (L : Layers) (ar : Nat) (har : 0 < ar) :
+    resolve1 c (.fn b far) L ar = .ok (b, L, far) := by
+  simp [resolve1, har]
+
+/-- the direct call: three passes end at the body, the argument list is the one written -/
+theorem prepare_direct (c : Ctx) (f : String) (body : Expr) (far ar : Nat) (as : List Expr)
+    (hfr : reserved f = false) (hf : c.get f = some (.fn body far)) (har : 0 < ar)
+    (hst : Stable c body) (hfull : hasHole as = false) (hfar : far ≤ as.length) :
+    prepare c (.sym f) (some as) ar = .ok (some (body, some as)) := by
+  have hlt : ¬ as.length < far := by omega
+  simp [prepare, resolve3, resolve1_sym_fn c f body far _ ar hfr hf har, hst _ _, mergeProjections,
+    hfull, hlt, bind, Except.bind, Except.map]
+
+/-- one projection, then the call that fills the rest -/
+theorem prepare_one_step (c : Ctx) (f g : String) (body : Expr) (far k1 k2 : Nat) (L1 L2 : List Expr)
+    (hfr : reserved f = false) (hf : c.get f = some (.fn body far))
+    (hgr : reserved g = false) (hg : c.get g = some (.proj (.sym f) L1 k1))
+    (h1 : hasHole L1 = true) (hk1 : 0 < k1) (hk2 : 0 < k2) (hst : Stable c body)
+    (hfull : hasHole (fillLayer L1 L2) = false) (hfar : far ≤ (fillLayer L1 L2).length) :
+    prepare c (.sym g) (some L2) k2 = .ok (some (body, some (fillLayer L1 L2))) := by
+  have hlt : ¬ (fillLayer L1 L2).length < far := by omega
+  simp [prepare, resolve3, resolve1_sym_proj c g (.sym f) L1 k1 _ k2 hgr hg h1 hk2,
+    resolve1_sym_fn c f body far _ k1 hfr hf hk1, hst _ _, mergeProjections, fillLayers, h1,
+    hfull, hlt, bind, Except.bind, Except.map]
+
+/-- two projections, then the call that fills the rest: all three resolution passes are used -/
+theorem prepare_two_steps (c : Ctx) (f g h : String) (body : Expr) (far k1 k2 k3 : Nat)
+    (L1 L2 L3 : List Expr)
+    (hfr : reserved f = false) (hf : c.get f = some (.fn body far))
+    (hgr : reserved g = false) (hg : c.get g = some (.proj (.sym f) L1 k1))
+    (hhr : reserved h = false) (hh : c.get h = some (.proj (.sym g) L2 k2))
+    (h1 : hasHole L1 = true) (h2 : hasHole L2 = true) (hk1 : 0 < k1) (hk2 : 0 < k2) (hk3 : 0 < k3)
+    (hfull : hasHole (fillLayer (fillLayer L1 L2) L3) = false)
+    (hfar : far ≤ (fillLayer (fillLayer L1 L2) L3).length) :
+    prepare c (.sym h) (some L3) k3 = .ok (some (body, some (fillLayer (fillLayer L1 L2) L3))) := by
+  have hlt : ¬ (fillLayer (fillLayer L1 L2) L3).length < far := by omega
+  simp [prepare, resolve3, resolve1_sym_proj c h (.sym g) L2 k2 _ k3 hhr hh h2 hk3,
+    resolve1_sym_proj c g (.sym f) L1 k1 _ k2 hgr hg h1 hk2,
+    resolve1_sym_fn c f body far _ k1 hfr hf hk1, mergeProjections, fillLayers, h1,
+    hfull, hlt, bind, Except.bind, Except.map]
+
+/-- the argument vector after the fills `sts`, by position -/
+def fillsFrom (cur : List Expr) : List Fill → List Expr
+  | [] => cur
+  | st :: r => fillsFrom (applyFillFrom 0 cur st) r
+
+/-- PROPERTY (one step).  `g::f(…holes…); g(rest)` — for every arity, every hole pattern (given as a
+    fill `st1` of the positions) and every final fill: evaluating the call through the projection
+    is, for every fuel and in every state, the same computation as the direct call `f(a;b;c)` whose
+    arguments are placed by position — same value or error, same state, same events. -/
+theorem projection_one_step (s : St) (f g : String) (body : Expr) (far n k1 k2 ar m : Nat) (st1 st2 : Fill)
+    (hfr : reserved f = false) (hf : s.ctx.get f = some (.fn body far))
+    (hgr : reserved g = false)
+    (hg : s.ctx.get g = some (.proj (.sym f) (relLayerFrom 0 (holes n) st1) k1))
+    (h1 : hasHole (relLayerFrom 0 (holes n) st1) = true)
+    (hk1 : 0 < k1) (hk2 : 0 < k2) (har : 0 < ar) (hst : Stable s.ctx body)
+    (hfull : hasHole (fillsFrom (holes n) [st1, st2]) = false) (hfar : far ≤ n) :
+    eval (m + 1) (.call (.sym g) (relLayerFrom 0 (fillsFrom (holes n) [st1]) st2) k2) s =
+    eval (m + 1) (.call (.sym f) (fillsFrom (holes n) [st1, st2]) ar) s := by
+  simp only [fillsFrom] at *
+  have e1 : fillLayer (relLayerFrom 0 (holes n) st1) (relLayerFrom 0 (applyFillFrom 0 (holes n) st1) st2)
+      = applyFillFrom 0 (applyFillFrom 0 (holes n) st1) st2 := by
+    rw [rel_holes, fillLayer_rel]
+  have hlen : (applyFillFrom 0 (applyFillFrom 0 (holes n) st1) st2).length = n := by
+    simp [applyFill_length, holes]
+  rw [eval_call_run, eval_call_run,
+    prepare_one_step s.ctx f g body far k1 k2 _ _ hfr hf hgr hg h1 hk1 hk2 hst (by rw [e1]; exact hfull)
+      (by rw [e1, hlen]; exact hfar),
+    prepare_direct s.ctx f body far ar _ hfr hf har hst hfull (by rw [hlen]; exact hfar), e1]
+
+/-- PROPERTY (any order, any number of steps).  `g::f(…); h::g(…); h(rest)` — for every arity, every
+    hole pattern of the first projection, every partial filling by the second and every final fill
+    that leaves no hole: the call through the two projections is the same computation as the direct
+    call with the arguments placed by position. With one argument filled per step this covers every
+    order of filling a triad; all three `_resolve_fn` passes are used. -/
+theorem projection_any_order (s : St) (f g h : String) (body : Expr) (far n k1 k2 k3 ar m : Nat)
+    (st1 st2 st3 : Fill)
+    (hfr : reserved f = false) (hf : s.ctx.get f = some (.fn body far))
+    (hgr : reserved g = false)
+    (hg : s.ctx.get g = some (.proj (.sym f) (relLayerFrom 0 (holes n) st1) k1))
+    (hhr : reserved h = false)
+    (hh : s.ctx.get h = some (.proj (.sym g) (relLayerFrom 0 (fillsFrom (holes n) [st1]) st2) k2))
+    (h1 : hasHole (relLayerFrom 0 (holes n) st1) = true)
+    (h2 : hasHole (relLayerFrom 0 (fillsFrom (holes n) [st1]) st2) = true)
+    (hk1 : 0 < k1) (hk2 : 0 < k2) (hk3 : 0 < k3) (har : 0 < ar) (hst : Stable s.ctx body)
+    (hfull : hasHole (fillsFrom (holes n) [st1, st2, st3]) = false) (hfar : far ≤ n) :
+    eval (m + 1) (.call (.sym h) (relLayerFrom 0 (fillsFrom (holes n) [st1, st2]) st3) k3) s =
+    eval (m + 1) (.call (.sym f) (fillsFrom (holes n) [st1, st2, st3]) ar) s := by
+  simp only [fillsFrom] at *
+  have e1 : fillLayer (fillLayer (relLayerFrom 0 (holes n) st1)
+        (relLayerFrom 0 (applyFillFrom 0 (holes n) st1) st2))
+        (relLayerFrom 0 (applyFillFrom 0 (applyFillFrom 0 (holes n) st1) st2) st3)
+      = applyFillFrom 0 (applyFillFrom 0 (applyFillFrom 0 (holes n) st1) st2) st3 := by
+    rw [rel_holes, fillLayer_rel, fillLayer_rel]
+  have hlen : (applyFillFrom 0 (applyFillFrom 0 (applyFillFrom 0 (holes n) st1) st2) st3).length = n := by
+    simp [applyFill_length, holes]
+  rw [eval_call_run, eval_call_run,
+    prepare_two_steps s.ctx f g h body far k1 k2 k3 _ _ _ hfr hf hgr hg hhr hh h1 h2 hk1 hk2 hk3
+      (by rw [e1]; exact hfull) (by rw [e1, hlen]; exact hfar),
+    prepare_direct s.ctx f body far ar _ hfr hf har hst hfull (by rw [hlen]; exact hfar), e1]
+
+/-- PROPERTY (witness against the pinned tree).  The merge of the tree before
+    `fix: merge_projections …` leaves a hole for `g::f(;;3); h::g(;2); h(1)` — the call then ran with
+    x unbound — while the positional merge fills all three positions. -/
+theorem pinned_merge_counterexample :
+    hasHole (mergeOld [.hole, .hole, .lit (.int 3)] [[.hole, .lit (.int 2)], [.lit (.int 1)]]) = true ∧
+    hasHole (fillLayer (fillLayer [.hole, .hole, .lit (.int 3)] [.hole, .lit (.int 2)]) [.lit (.int 1)]) = false := by
+  decide
+
+/-! ## conditionals -/
+
+/-- PROPERTY.  Klong truth: exactly 0 (integer or real, either sign), [] and "" are false. -/
+theorem truthy_spec (q : Expr) :
+    truthy q = false ↔
+      q = .lit (.int 0) ∨ q = .lit (.real 0) ∨ q = .lit (.real 0x8000000000000000) ∨
+      q = .lit (.list []) ∨ q = .lit (.str []) := by
+  cases q with
+  | lit v =>
+    cases v with
+    | int n => simp [truthy, falsy]
+    | real b => simp [truthy, falsy]; by_cases hb : b = 0 <;> simp [hb]
+    | list xs => cases xs <;> simp [truthy, falsy]
+    | str cs => cases cs <;> simp [truthy, falsy]
+    | _ => simp [truthy, falsy]
+  | _ => simp [truthy]
+
+/-- PROPERTY.  `:[c;a;b]` evaluates `c`, then `a` if the value of `c` is true and `b` otherwise —
+    and nothing else. -/
+theorem cond_by_truth (ev : Expr → M Expr) (c a b : Expr) (s : St) :
+    step ev (.cond c a b) s =
+      match callE ev c s with
+      | (.error e, s1) => (.error e, s1)
+      | (.ok q, s1) => if truthy q then callE ev a s1 else callE ev b s1 := by
+  simp only [step, bind_run]
+  cases callE ev c s with
+  | mk r s1 =>
+    cases r with
+    | error e => rfl
+    | ok q => simp only; split <;> rfl
+
+/-- PROPERTY.  The unselected branch is never evaluated: replace it by any expression at all — one
+    that logs, assigns or raises — and result, state and event log of the conditional are the same. -/
+theorem cond_unselected_silent (n : Nat) (c a b : Expr) (s : St) (q : Expr) (s1 : St)
+    (hc : callE (eval n) c s = (.ok q, s1)) :
+    (truthy q = true → ∀ b', eval (n + 1) (.cond c a b) s = eval (n + 1) (.cond c a b') s) ∧
+    (truthy q = false → ∀ a', eval (n + 1) (.cond c a b) s = eval (n + 1) (.cond c a' b) s) ∧
+    eval (n + 1) (.cond c a b) s = (if truthy q then callE (eval n) a s1 else callE (eval n) b s1) := by
+  have h : ∀ a b, eval (n + 1) (.cond c a b) s =
+      (if truthy q then callE (eval n) a s1 else callE (eval n) b s1) := by
+    intro a b
+    show step (eval n) _ s = _
+    rw [cond_by_truth, hc]
+  refine ⟨fun ht b' => ?_, fun ht a' => ?_, h a b⟩
+  · rw [h, h, ht]; simp
+  · rw [h, h, ht]; simp
+
+/-! ## a call is the substituted body -/
+
+/-- the closed first-order body grammar: data, the parameters `ps`, global data variables of the
+    caller's context `c`, monadic and dyadic operators (not `@`), conditionals -/
+inductive Body (c : Ctx) (ps : List String) : Expr → Prop
+  | lit (v : Val) : Body c ps (.lit v)
+  | param (p : String) : p ∈ ps → Body c ps (.sym p)
+  | glob (g : String) (v : Val) : reserved g = false → g ≠ ".f" → c.get g = some (.lit v) →
+      Body c ps (.sym g)
+  | op1 (o : String) (a : Expr) : Body c ps a → Body c ps (.op1 o a)
+  | op2 (o : String) (a b : Expr) : o ≠ "@" → Body c ps a → Body c ps b → Body c ps (.op2 o a b)
+  | cond (t a b : Expr) : Body c ps t → Body c ps a → Body c ps b → Body c ps (.cond t a b)
+
+def op1K (o : String) (x : Expr) : Except Err Expr :=
+  match x with
+  | .lit v => match monad o v with
+    | some r => .ok (.lit r)
+    | none => .error .type
+  | _ => .error .type
+
+def op2K (o : String) (x y : Expr) : Except Err Expr :=
+  match x, y with
+  | .lit v, .lit w => match dyad o v w with
+    | some r => .ok (.lit r)
+    | none => .error .type
+  | _, _ => .error .type
+
+theorem step_op1 (ev : Expr → M Expr) (o : String) (a : Expr) (s : St) :
+    step ev (.op1 o a) s = match ev a s with
+      | (.ok x, s') => (op1K o x, s')
+      | (.error e, s') => (.error e, s') := by
+  simp only [step, bind_run]
+  cases ev a s with
+  | mk r s' =>
+    cases r with
+    | error e => rfl
+    | ok x =>
+      cases x with
+      | lit v => simp only [op1K]; cases monad o v <;> rfl
+      | _ => rfl
+
+theorem step_op2 (ev : Expr → M Expr) (o : String) (a b : Expr) (s : St) (ho : o ≠ "@") :
+    step ev (.op2 o a b) s = match ev b s with
+      | (.error e, s1) => (.error e, s1)
+      | (.ok y, s1) => match ev a s1 with
+        | (.error e, s2) => (.error e, s2)
+        | (.ok x, s2) => (op2K o x y, s2) := by
+  have ho' : (o == "@") = false := by simpa using ho
+  simp only [step, bind_run, ho']
+  cases ev b s with
+  | mk r s1 =>
+    cases r with
+    | error e => rfl
+    | ok y =>
+      simp only
+      cases ev a s1 with
+      | mk r2 s2 =>
+        cases r2 with
+        | error e => rfl
+        | ok x =>
+          simp only [Bool.false_eq_true, if_false]
+          cases x with
+          | lit v =>
+            cases y with
+            | lit w => simp only [op2K]; cases dyad o v w <;> rfl
+            | _ => rfl
+          | _ => rfl
+
+theorem callE_body (ev : Expr → M Expr) (c : Ctx) (ps : List String) (e : Expr) (hb : Body c ps e) :
+    callE ev e = ev e := by
+  cases hb <;> rfl
+
+section sim
+variable (c : Ctx) (ps : List String) (frame σ : KV)
+  (H1 : ∀ p ∈ ps, ∃ v, frame.get p = some (.lit v) ∧ σ.get p = some (.lit v))
+  (H2 : ∀ g, reserved g = false → g ≠ ".f" → frame.get g = none ∧ σ.get g = none)
+include H1 H2
+
+theorem callE_subst_body (ev : Expr → M Expr) (e : Expr) (hb : Body c ps e) :
+    callE ev (subst σ e) = ev (subst σ e) := by
+  cases hb with
+  | lit v => rfl
+  | param p hp =>
+    obtain ⟨v, _, h2⟩ := H1 p hp
+    simp [subst, bound, h2, callE]
+  | glob g v hr hf hg =>
+    simp [subst, bound, (H2 g hr hf).2, callE]
+  | op1 o a ha => simp [subst, callE]
+  | op2 o a b ho ha hb' => simp [subst, callE]
+  | cond t a b ht ha hb' => simp [subst, callE]
+
+/-- evaluating a body of the grammar under the frame {x,y,z ↦ values, .f} is evaluating the
+    substituted body without the frame; neither changes the state -/
+theorem sim : ∀ (n : Nat) (e : Expr), Body c ps e → ∀ lg,
+    eval n (subst σ e) ⟨c, lg⟩ = ((eval n (subst σ e) ⟨c, lg⟩).1, ⟨c, lg⟩) ∧
+    eval n e ⟨c.push frame, lg⟩ = ((eval n (subst σ e) ⟨c, lg⟩).1, ⟨c.push frame, lg⟩) := by
+  intro n
+  induction n with
+  | zero => intro e _ lg; exact ⟨rfl, rfl⟩
+  | succ n ih =>
+    intro e hb lg
+    cases hb with
+    | lit v => exact ⟨rfl, rfl⟩
+    | param p hp =>
+      obtain ⟨v, h1, h2⟩ := H1 p hp
+      have hs : subst σ (.sym p) = .lit v := by simp [subst, bound, h2]
+      have eF : eval (n + 1) (.sym p) ⟨c.push frame, lg⟩ = (.ok (.lit v), ⟨c.push frame, lg⟩) := by
+        show step (eval n) _ _ = _
+        simp [step, bind_run, getCtx, Ctx.get, Ctx.push, getScopes, h1, pure_run]
+      rw [hs, eF]
+      exact ⟨rfl, rfl⟩
+    | glob g v hr hf hg =>
+      obtain ⟨h1, h2⟩ := H2 g hr hf
+      have hs : subst σ (.sym g) = .sym g := by simp [subst, bound, h2]
+      have hg' : getScopes c.scopes g = some (.lit v) := hg
+      have e0 : eval (n + 1) (.sym g) ⟨c, lg⟩ = (.ok (.lit v), ⟨c, lg⟩) := by
+        show step (eval n) _ _ = _
+        simp [step, bind_run, getCtx, Ctx.get, hg', pure_run]
+      have eF : eval (n + 1) (.sym g) ⟨c.push frame, lg⟩ = (.ok (.lit v), ⟨c.push frame, lg⟩) := by
+        show step (eval n) _ _ = _
+        simp [step, bind_run, getCtx, Ctx.get, Ctx.push, getScopes, h1, hg', pure_run]
+      rw [hs, e0, eF]
+      exact ⟨rfl, rfl⟩
+    | op1 o a ha =>
+      obtain ⟨i1, i2⟩ := ih a ha lg
+      have hs : subst σ (.op1 o a) = .op1 o (subst σ a) := by simp [subst]
+      rw [hs]
+      constructor
+      · show step (eval n) _ _ = ((step (eval n) _ _).1, _)
+        rw [step_op1, i1]
+        cases (eval n (subst σ a) ⟨c, lg⟩).1 <;> rfl
+      · show step (eval n) _ _ = ((step (eval n) _ _).1, _)
+        rw [step_op1, step_op1, i2, i1]
+        cases (eval n (subst σ a) ⟨c, lg⟩).1 <;> rfl
+    | op2 o a b ho ha hb' =>
+      obtain ⟨a1, a2⟩ := ih a ha lg
+      obtain ⟨b1, b2⟩ := ih b hb' lg
+      have hs : subst σ (.op2 o a b) = .op2 o (subst σ a) (subst σ b) := by simp [subst]
+      rw [hs]
+      constructor
+      · show step (eval n) _ _ = ((step (eval n) _ _).1, _)
+        rw [step_op2 _ _ _ _ _ ho, b1]
+        cases (eval n (subst σ b) ⟨c, lg⟩).1 with
+        | error e => rfl
+        | ok y =>
+          simp only
+          rw [a1]
+          cases (eval n (subst σ a) ⟨c, lg⟩).1 <;> rfl
+      · show step (eval n) _ _ = ((step (eval n) _ _).1, _)
+        rw [step_op2 _ _ _ _ _ ho, step_op2 _ _ _ _ _ ho, b2, b1]
+        cases (eval n (subst σ b) ⟨c, lg⟩).1 with
+        | error e => rfl
+        | ok y =>
+          simp only
+          rw [a2, a1]
+          cases (eval n (subst σ a) ⟨c, lg⟩).1 <;> rfl
+    | cond t a b ht ha hb' =>
+      obtain ⟨t1, t2⟩ := ih t ht lg
+      obtain ⟨a1, a2⟩ := ih a ha lg
+      obtain ⟨b1, b2⟩ := ih b hb' lg
+      have hs : subst σ (.cond t a b) = .cond (subst σ t) (subst σ a) (subst σ b) := by simp [subst]
+      rw [hs]
+      constructor
+      · show step (eval n) _ _ = ((step (eval n) _ _).1, _)
+        rw [cond_by_truth, callE_subst_body c ps frame σ H1 H2 _ t ht, t1]
+        cases (eval n (subst σ t) ⟨c, lg⟩).1 with
+        | error e => rfl
+        | ok q =>
+          simp only
+          split
+          · rw [callE_subst_body c ps frame σ H1 H2 _ a ha, a1]
+          · rw [callE_subst_body c ps frame σ H1 H2 _ b hb', b1]
+      · show step (eval n) _ _ = ((step (eval n) _ _).1, _)
+        rw [cond_by_truth, cond_by_truth, callE_subst_body c ps frame σ H1 H2 _ t ht,
+          callE_body _ c ps t ht, t2, t1]
+        cases (eval n (subst σ t) ⟨c, lg⟩).1 with
+        | error e => rfl
+        | ok q =>
+          simp only
+          split
+          · rw [callE_subst_body c ps frame σ H1 H2 _ a ha, callE_body _ c ps a ha, a2, a1]
+          · rw [callE_subst_body c ps frame σ H1 H2 _ b hb', callE_body _ c ps b hb', b2, b1]
+
+end sim
+
+theorem hasHole_lits (vals : List Val) : hasHole (vals.map .lit) = false := by
+  induction vals with
+  | nil => rfl
+  | cons v vs ih =>
+    simp only [hasHole, List.map_cons, List.any_cons, isHole, Bool.false_or] at ih ⊢
+    exact ih
+
+theorem bindArgs_lits_ok (n : Nat) : ∀ (ps : List String) (vals : List Val) (s : St),
+    bindArgs (eval (n + 1)) ps (vals.map .lit) s = (.ok (ps.zip (vals.map .lit)), s) := by
+  intro ps
+  induction ps with
+  | nil => intro vals s; simp [bindArgs, pure_run]
+  | cons p ps ih =>
+    intro vals s
+    cases vals with
+    | nil => simp [bindArgs, pure_run]
+    | cons v vals =>
+      simp only [List.map_cons, bindArgs, bind_run, callE, eval_lit_ok, ih, pure_run, List.zip_cons_cons]
+
+theorem prepare_fn (c : Ctx) (body : Expr) (far ar : Nat) (as : List Expr) (har : 0 < ar)
+    (hst : Stable c body) (hfull : hasHole as = false) (hfar : far ≤ as.length) :
+    prepare c (.fn body far) (some as) ar = .ok (some (body, some as)) := by
+  have hlt : ¬ as.length < far := by omega
+  simp [prepare, resolve3, resolve1_fn c body far _ ar har, hst _ _, mergeProjections, hfull, hlt,
+    bind, Except.bind]
+
+/-- the substitution of a call with the argument values `vals` -/
+def sigma (vals : List Val) : KV := List.zip ["x", "y", "z"] (vals.map .lit)
+
+theorem frame_H1 (vals : List Val) (hlen : vals.length ≤ 3) (body : Expr) :
+    ∀ p ∈ ["x", "y", "z"].take vals.length,
+      ∃ v, ((sigma vals).put ".f" body).get p = some (.lit v) ∧ (sigma vals).get p = some (.lit v) := by
+  intro p hp
+  rcases vals with _ | ⟨a, _ | ⟨b, _ | ⟨d, _ | ⟨e, r⟩⟩⟩⟩
+  · simp at hp
+  · simp at hp; subst hp; exact ⟨a, by simp [sigma, KV.get, KV.put]⟩
+  · simp at hp
+    rcases hp with rfl | rfl
+    · exact ⟨a, by simp [sigma, KV.get, KV.put]⟩
+    · exact ⟨b, by simp [sigma, KV.get, KV.put]⟩
+  · simp at hp
+    rcases hp with rfl | rfl | rfl
+    · exact ⟨a, by simp [sigma, KV.get, KV.put]⟩
+    · exact ⟨b, by simp [sigma, KV.get, KV.put]⟩
+    · exact ⟨d, by simp [sigma, KV.get, KV.put]⟩
+  · simp at hlen
+
+theorem frame_H2 (vals : List Val) (body : Expr) :
+    ∀ g, reserved g = false → g ≠ ".f" →
+      ((sigma vals).put ".f" body).get g = none ∧ (sigma vals).get g = none := by
+  intro g hr hf
+  simp [reserved] at hr
+  obtain ⟨⟨hx, hy⟩, hz⟩ := hr
+  have hnone : (sigma vals).get g = none := by
+    rcases vals with _ | ⟨a, _ | ⟨b, _ | ⟨d, r⟩⟩⟩ <;> simp [sigma, KV.get, hx, hy, hz]
+  exact ⟨by rw [KV.get_put_ne _ _ _ _ hf]; exact hnone, hnone⟩
+
+/-- the second half of a call on a body of the grammar is the substituted body -/
+theorem apply_is_substitution (n : Nat) (c : Ctx) (lg : List Expr) (hw : WF c) (body : Expr)
+    (vals : List Val) (hlen : vals.length ≤ 3)
+    (hb : Body c (["x", "y", "z"].take vals.length) body) (hsl : splitLocals body = none) :
+    applyFn (eval (n + 1)) body (some (vals.map .lit)) ⟨c, lg⟩ =
+      eval (n + 1) (subst (sigma vals) body) ⟨c, lg⟩ := by
+  obtain ⟨s1, s2⟩ := sim c _ ((sigma vals).put ".f" body) (sigma vals) (frame_H1 vals hlen body)
+    (frame_H2 vals body) (n + 1) body hb lg
+  have hfo : frameOf body (sigma vals) = ((sigma vals).put ".f" body, body) := by
+    simp [frameOf, hsl]
+  have hrb : runBody (eval (n + 1)) body = eval (n + 1) body := by
+    unfold runBody
+    cases hb <;> rfl
+  unfold applyFn
+  simp only [bind_run, bindFrame, bindArgs_lits_ok]
+  show framed (frameOf body (sigma vals)).1 (runBody (eval (n + 1)) (frameOf body (sigma vals)).2) _ = _
+  rw [hfo, hrb]
+  unfold framed
+  simp only
+  rw [s2]
+  simp only
+  rw [pop_push _ _ hw]
+  exact s1.symm
+
+/-- PROPERTY (a call is the substituted body).  For every body of the closed first-order grammar,
+    every argument tuple of values and every state of the caller: calling the function literal is —
+    value or error, state, events — evaluating the body with the values written in place of
+    x, y and z. -/
+theorem call_is_substitution (n : Nat) (c : Ctx) (lg : List Expr) (hw : WF c) (body : Expr)
+    (far ar : Nat) (vals : List Val) (hlen : vals.length ≤ 3) (hfar : far ≤ vals.length) (har : 0 < ar)
+    (hb : Body c (["x", "y", "z"].take vals.length) body) (hst : Stable c body)
+    (hsl : splitLocals body = none) :
+    eval (n + 2) (.call (.fn body far) (vals.map .lit) ar) ⟨c, lg⟩ =
+      eval (n + 1) (subst (sigma vals) body) ⟨c, lg⟩ := by
+  rw [eval_call_run]
+  simp only
+  rw [prepare_fn c body far ar _ har hst (hasHole_lits vals) (by simpa using hfar)]
+  exact apply_is_substitution n c lg hw body vals hlen hb hsl
+
+/-- … and the same through a variable bound to the function -/
+theorem call_is_substitution_var (n : Nat) (c : Ctx) (lg : List Expr) (hw : WF c) (f : String) (body : Expr)
+    (far ar : Nat) (vals : List Val) (hlen : vals.length ≤ 3) (hfar : far ≤ vals.length) (har : 0 < ar)
+    (hfr : reserved f = false) (hf : c.get f = some (.fn body far))
+    (hb : Body c (["x", "y", "z"].take vals.length) body) (hst : Stable c body)
+    (hsl : splitLocals body = none) :
+    eval (n + 2) (.call (.sym f) (vals.map .lit) ar) ⟨c, lg⟩ =
+      eval (n + 1) (subst (sigma vals) body) ⟨c, lg⟩ := by
+  rw [eval_call_run]
+  simp only
+  rw [prepare_direct c f body far ar _ hfr hf har hst (hasHole_lits vals) (by simpa using hfar)]
+  exact apply_is_substitution n c lg hw body vals hlen hb hsl
+
+/-- … and through `@` -/
+theorem call_is_substitution_at (n : Nat) (c : Ctx) (lg : List Expr) (hw : WF c) (f : String) (body : Expr)
+    (far : Nat) (vals : List Val) (hlen : vals.length ≤ 3) (hfar : far ≤ vals.length)
+    (hf : c.get f = some (.fn body far))
+    (hb : Body c (["x", "y", "z"].take vals.length) body) (hst : Stable c body)
+    (hsl : splitLocals body = none) :
+    eval (n + 3) (.op2 "@" (.sym f) (.lit (.list vals))) ⟨c, lg⟩ =
+      eval (n + 1) (subst (sigma vals) body) ⟨c, lg⟩ := by
+  have e1 : eval (n + 2) (.sym f) ⟨c, lg⟩ = (.ok (.fn body far), ⟨c, lg⟩) := by
+    show step (eval (n + 1)) _ _ = _
+    simp [step, bind_run, getCtx, hf, pure_run]
+  show step (eval (n + 2)) _ _ = _
+  simp only [step, bind_run, eval_lit_ok, e1]
+  simp only [beq_self_eq_true, if_true, isKGFn, Bool.true_or]
+  exact call_is_substitution n c lg hw body far 1 vals hlen hfar (by omega) hb hst hsl
+
+/-! ## non-vacuity: a concrete interpreter state on which the hypotheses hold -/
+
+def body3 : Expr :=
+  .op2 "+" (.op2 "*" (.lit (.int 100)) (.sym "x")) (.op2 "+" (.op2 "*" (.lit (.int 10)) (.sym "y")) (.sym "z"))
+
+/-- `{[a];a::x;boom(a)}` -/
+def locBody : Expr := .prog [.lit (.list [.sym [97]]), .asg "a" (.sym "x"), .call (.sym "boom") [.sym "a"] 1]
+
+def exCtx : Ctx :=
+  { scopes := [{ kv := [("f", .fn body3 3),
+                        ("g", .proj (.sym "f") [.hole, .hole, .lit (.int 3)] 3),
+                        ("h", .proj (.sym "g") [.hole, .lit (.int 2)] 2),
+                        ("a", .lit (.int 10)),
+                        ("boom", .callN (.lam "boom") 1),
+                        ("log", .callN (.lam "log") 1),
+                        ("loc", .fn locBody 1)] }, {}, { ro := true }],
+    minCount := 2 }
+
+def exSt : St := { ctx := exCtx }
+
+def obsInt : Except Err Expr → Int
+  | .ok (.lit (.int n)) => n
+  | _ => -999
+
+def obsErr : Except Err Expr → Option Err
+  | .error e => some e
+  | .ok _ => none
+
+def obsGetInt (c : Ctx) (k : String) : Int :=
+  match c.get k with
+  | some (.lit (.int n)) => n
+  | _ => -999
+
+theorem exWF : WF exCtx := by simp [WF, exCtx]
+
+-- a call that assigns its declared local and then raises inside a nested call
+example : obsErr (eval 50 (.call (.sym "loc") [.lit (.int 5)] 1) exSt).1 = some .boom := by decide
+-- frame_discipline / locals_are_local apply to it (WF holds), and indeed:
+example : (eval 50 (.call (.sym "loc") [.lit (.int 5)] 1) exSt).2.ctx.depth = 3 :=
+  (frame_discipline 50 _ exSt exWF).1
+example : obsGetInt (eval 50 (.call (.sym "loc") [.lit (.int 5)] 1) exSt).2.ctx "a" = 10 := by decide
+example : declared locBody = ["a"] := by decide
+
+-- projection_any_order: g::f(;;3); h::g(;2); h(1) — the fill order z, y, x
+example : eval 30 (.call (.sym "h") [.lit (.int 1)] 1) exSt =
+    eval 30 (.call (.sym "f") [.lit (.int 1), .lit (.int 2), .lit (.int 3)] 3) exSt :=
+  projection_any_order exSt "f" "g" "h" body3 3 3 3 2 1 3 29
+    [(2, .lit (.int 3))] [(1, .lit (.int 2))] [(0, .lit (.int 1))]
+    rfl rfl rfl rfl rfl rfl rfl rfl (by decide) (by decide) (by decide) (by decide)
+    (stable_op2 _ _ _ _) rfl (by decide)
+example : obsInt (eval 30 (.call (.sym "h") [.lit (.int 1)] 1) exSt).1 = 123 := by decide
+
+-- projection_one_step: g::f(;;3); g(1;2)
+example : eval 30 (.call (.sym "g") [.lit (.int 1), .lit (.int 2)] 2) exSt =
+    eval 30 (.call (.sym "f") [.lit (.int 1), .lit (.int 2), .lit (.int 3)] 3) exSt :=
+  projection_one_step exSt "f" "g" body3 3 3 3 2 3 29
+    [(2, .lit (.int 3))] [(0, .lit (.int 1)), (1, .lit (.int 2))]
+    rfl rfl rfl rfl rfl (by decide) (by decide) (by decide) (stable_op2 _ _ _ _) rfl (by decide)
+
+-- conditionals: the unselected branch may even be the failing primitive
+example : obsInt (eval 20 (.cond (.lit (.list [])) (.call (.sym "boom") [.lit (.int 1)] 1) (.lit (.int 7))) exSt).1 = 7 := by
+  decide
+example : truthy (.lit (.str [])) = false := (truthy_spec _).mpr (by simp)
+
+-- call_is_substitution: body3 is in the grammar, stable, without local declaration
+theorem body3_body : Body exCtx ["x", "y", "z"] body3 :=
+  .op2 _ _ _ (by decide) (.op2 _ _ _ (by decide) (.lit _) (.param _ (by simp)))
+    (.op2 _ _ _ (by decide) (.op2 _ _ _ (by decide) (.lit _) (.param _ (by simp))) (.param _ (by simp)))
+
+example : eval 12 (.call (.sym "f") [.lit (.int 1), .lit (.int 2), .lit (.int 3)] 3) exSt =
+    eval 11 (subst (sigma [.int 1, .int 2, .int 3]) body3) exSt :=
+  call_is_substitution_var 10 exCtx [] exWF "f" body3 3 3 [.int 1, .int 2, .int 3] (by decide) (by decide)
+    (by decide) rfl rfl body3_body (stable_op2 _ _ _ _) rfl
+
+-- locals_are_local / call_frame_discipline on the failing call above
+example : (eval 50 (.call (.sym "loc") ([Val.int 5].map .lit) 1) exSt).2.ctx.get "a" = exSt.ctx.get "a" :=
+  locals_are_local 49 (.sym "loc") [.int 5] 1 exSt exWF locBody [.int 5] rfl "a" (Or.inr (Or.inl (by decide)))
+
+example : (eval 50 (.call (.sym "loc") ([Val.int 5].map .lit) 1) exSt).2.ctx.scopes.map sig
+    = exSt.ctx.scopes.map sig :=
+  (call_frame_discipline 49 (.sym "loc") [.int 5] 1 exSt exWF (by
+    intro f merged h
+    have : prepare exSt.ctx (.sym "loc") (some ([Val.int 5].map .lit)) 1
+        = .ok (some (locBody, some ([Val.int 5].map .lit))) := rfl
+    rw [this] at h
+    cases h
+    exact ⟨[.int 5], rfl⟩)).1
+
+-- merge_is_positional: the layer `(;2)` on the vector [_, _, 3] puts 2 at position 1 and nothing else
+example : fillLayer [.hole, .hole, .lit (.int 3)] (relLayerFrom 0 [.hole, .hole, .lit (.int 3)] [(1, .lit (.int 2))])
+    = [.hole, .lit (.int 2), .lit (.int 3)] := rfl
 
 end Klong.C03
